@@ -421,6 +421,14 @@ func (ex *Exec) applyContract(st *State, fr *Frame, sp *FuncSpec, fn *ssa.Functi
 	// frame
 	if sp.ModAll {
 		before := map[string]*Term{}
+		keep := map[string]*Term{}
+		for _, tn := range sp.PreservesTypes {
+			for class, h := range st.Heap {
+				if strings.HasPrefix(class, tn+".") {
+					keep[class] = h
+				}
+			}
+		}
 		if sp.PreservesHeld {
 			for _, h := range st.Held {
 				if ts := ex.Specs.Types[h.Type]; ts != nil {
@@ -435,6 +443,9 @@ func (ex *Exec) applyContract(st *State, fr *Frame, sp *FuncSpec, fn *ssa.Functi
 			}
 		}
 		ex.havocAll(st, true)
+		for class, h := range keep {
+			st.Heap[class] = h
+		}
 		if sp.PreservesHeld {
 			ex.restoreHeld(st, before)
 		}
